@@ -5,6 +5,11 @@
 //! the same errno - hence the same `ErrorKind` and message - Linux would give) unless the fault
 //! plan holds an entry for this call index. With `Mode::Real` the call goes to `std::fs` below a
 //! scratch root and is logged the same way, which is how the model is validated.
+// Everything else of `std::fs` passes through to the real thing, so that code under test that
+// starts using `fs::File`, `fs::OpenOptions`, `fs::metadata`, `fs::read_dir` ... still compiles
+// with the guard on (such calls are not simulated: they are what the unhooked runs in a real
+// directory are for). The functions defined below shadow the glob import.
+pub use std::fs::*;
 use crate::os::{self, err_repr, errno_error, missing_errno, norm, nul_error, CallResult, FaultSpec, Mode, Node, SimOs};
 use std::io;
 use std::path::{Path, PathBuf};
